@@ -591,9 +591,6 @@ fn args_desc(p: &mut Parser) {
 		break;
 	}
 	p.expect(T![')']);
-	if p.at(T![tailstrict]) {
-		p.bump();
-	}
 
 	for errored in unnamed_after_named {
 		errored.wrap_error(p, "can't use positional arguments after named", true);
@@ -715,6 +712,10 @@ fn suffix(p: &mut Parser) {
 			}
 		} else if p.at(T!['(']) {
 			args_desc(p);
+			// `tailstrict` belongs to the apply suffix (SuffixApply = ArgsDesc 'tailstrict'?), not to the argument list
+			if p.at(T![tailstrict]) {
+				p.bump();
+			}
 			start.complete(p, SUFFIX_APPLY)
 		} else {
 			start.forget(p);
